@@ -39,7 +39,8 @@ def run(chk, tier):
                     if r.below(2):
                         ls = [lens[r.below(len(lens))] for _ in range(3)]
                     ops.append(f"zero {e['name']} {route} " + " ".join(hx(r.bytes(L)) for L in ls))
-    for fam, L in (("Aes128", 16), ("Aes192", 24), ("Aes256", 32), ("Kuznyechik", 32)):
+    for fam, L in (("Aes128", 16), ("Aes192", 24), ("Aes256", 32), ("Kuznyechik", 32),
+                   ("Armv8Aes128", 16), ("Armv8Aes192", 24), ("Armv8Aes256", 32), ("NeonKuznyechik", 32)):
         for route in ("c.from_e", "c.from_eref", "d.from_e", "d.from_eref", "c.clone_from_e", "d.clone_from_e"):
             for _ in range(reps):
                 ks = [r.bytes(L) for _ in range(3)]
